@@ -2,15 +2,39 @@
 // KeyInit::new_from_slice, and the two block functions, against the Serpent AES submission (bcref::serpent), under
 // both expansions of unroll31! (default: 31 textual copies; --cfg serpent_no_unroll: a `for` loop).
 // The block functions are proved for EVERY value of the 33 round keys (not only reachable ones), against the
-// contracts of their callees: apply_s / apply_s_inv / linear_transform(_inv) are replaced by their spec functions
-// (licensed by bitslice.rs c_apply_s, c_apply_s_inv, c_linear_transform, c_linear_transform_inv).
+// contracts of their callees: by bitslice.rs c_apply_s_fwd, c_apply_s_inv, c_linear_transform_fwd, c_linear_transform_inv the
+// real apply_s / apply_s_inv / linear_transform(_inv) and the reference's sbox / sbox_inv / lt / lt_inv are the same
+// functions, so both are replaced by one (scheduled) uninterpreted function each: what remains to be checked is the
+// composition (round structure, key order, S-box numbering, byte order), which takes seconds.
 //
 // @module file=serpent/src/lib.rs
 // @config name=no_unroll rustflags="--cfg serpent_no_unroll"
 use super::*;
-use crate::bitslice::__vp_bitslice::{eq4, spec_apply_s, spec_apply_s_inv, spec_lt, spec_lt_inv};
+use crate::bitslice::__vp_bitslice::eq4;
 use bcref::serpent as r;
 use cipher::Array;
+include!("@VERIF@/contracts/serpent/sched_uf.inc");
+
+type SArg = (usize, [u32; 4]);
+fn eq_sarg(a: &SArg, b: &SArg) -> bool { a.0 == b.0 && eq4(&a.1, &b.1) }
+fn eq_w(a: &[u32; 4], b: &[u32; 4]) -> bool { eq4(a, b) }
+// S-box layer (forward), S-box layer (inverse), linear transformation, inverse linear transformation
+sched_uf!(uf_s, SArg, (0, [0; 4]), [u32; 4], [0; 4], 65, eq_sarg);
+sched_uf!(uf_si, SArg, (0, [0; 4]), [u32; 4], [0; 4], 32, eq_sarg);
+sched_uf!(uf_l, [u32; 4], [0; 4], [u32; 4], [0; 4], 31, eq_w);
+sched_uf!(uf_li, [u32; 4], [0; 4], [u32; 4], [0; 4], 31, eq_w);
+// one stub each for the real callee and for the reference's (same signature); by c_apply_s_fwd / c_apply_s_inv both are
+// functions of (index mod 8, words) only
+fn st_s(index: usize, w: [u32; 4]) -> [u32; 4] { uf_s::call((index % 8, w)) }
+fn st_si(index: usize, w: [u32; 4]) -> [u32; 4] { uf_si::call((index % 8, w)) }
+fn st_l(w: [u32; 4]) -> [u32; 4] { uf_l::call(w) }
+fn st_li(w: [u32; 4]) -> [u32; 4] { uf_li::call(w) }
+fn replay_all() {
+    uf_s::replay_same_order();
+    uf_si::replay_same_order();
+    uf_l::replay_same_order();
+    uf_li::replay_same_order();
+}
 
 pub fn any_serpent() -> Serpent { Serpent { round_keys: kani::any() } }
 
@@ -72,9 +96,10 @@ fn c_expand_key() {
 
 // The whole key schedule (padding, prekey recurrence, S-box selection (35 - i) mod 32, round-key layout) for a key
 // of SYMBOLIC length 16..=32, against section 4 of the submission.
-// @ob name=c_key_schedule props=C08,C20 fn=serpent::Serpent::new_from_slice uses=c_apply_s timeout=600
+// @ob name=c_key_schedule props=C08,C20 fn=serpent::Serpent::new_from_slice uses=c_apply_s_fwd timeout=600
 #[kani::proof]
-#[kani::stub(crate::bitslice::apply_s, spec_apply_s)]
+#[kani::stub(crate::bitslice::apply_s, st_s)]
+#[kani::stub(bcref::serpent::sbox, st_s)]
 #[kani::unwind(141)]
 fn c_key_schedule() {
     let buf: [u8; 32] = kani::any();
@@ -84,6 +109,7 @@ fn c_key_schedule() {
     kani::cover!(n == 27);
     kani::cover!(n == 32);
     let c = <Serpent as KeyInit>::new_from_slice(&buf[..n]).unwrap();
+    replay_all();
     assert!(eq_rk(&c.round_keys, &r::key_schedule(&r::pad_key(&buf, n))));
 }
 
@@ -94,7 +120,7 @@ fn c_key_schedule() {
 /// order) -- and, if that call was the opposite direction with the same S-box number and produced the present
 /// argument, returns that call's argument; otherwise an unconstrained value.  Every behaviour of the real functions
 /// is included, by bitslice.rs l_apply_s_inverse / l_linear_transform_inverse (inverse pairs, both orders) and
-/// c_apply_s / c_apply_s_inv (the S-box used depends on index mod 8 only).
+/// c_apply_s_fwd / c_apply_s_inv (the S-box used depends on index mod 8 only).
 pub mod ufs {
     use super::*;
     pub static mut S_FWD: [bool; 32] = [false; 32];
@@ -147,8 +173,10 @@ pub mod ufs {
 macro_rules! block_fns {
     ($enc:ident, $dec:ident, $rt:ident, $rtmono:ident, $unwind:expr, $cfgok:expr) => {
         #[kani::proof]
-        #[kani::stub(crate::bitslice::apply_s, spec_apply_s)]
-        #[kani::stub(crate::bitslice::linear_transform, spec_lt)]
+        #[kani::stub(crate::bitslice::apply_s, st_s)]
+        #[kani::stub(bcref::serpent::sbox, st_s)]
+        #[kani::stub(crate::bitslice::linear_transform, st_l)]
+        #[kani::stub(bcref::serpent::lt, st_l)]
         #[kani::unwind($unwind)]
         fn $enc() {
             assert!($cfgok);
@@ -156,11 +184,14 @@ macro_rules! block_fns {
             let b: [u8; 16] = kani::any();
             let mut blk = Array(b);
             cipher::BlockCipherEncrypt::encrypt_block(&c, &mut blk);
+            replay_all();
             assert!(eq4(&r::words_of(&blk.0), &r::encrypt_words(&c.round_keys, r::words_of(&b))));
         }
         #[kani::proof]
-        #[kani::stub(crate::bitslice::apply_s_inv, spec_apply_s_inv)]
-        #[kani::stub(crate::bitslice::linear_transform_inv, spec_lt_inv)]
+        #[kani::stub(crate::bitslice::apply_s_inv, st_si)]
+        #[kani::stub(bcref::serpent::sbox_inv, st_si)]
+        #[kani::stub(crate::bitslice::linear_transform_inv, st_li)]
+        #[kani::stub(bcref::serpent::lt_inv, st_li)]
         #[kani::unwind($unwind)]
         fn $dec() {
             assert!($cfgok);
@@ -168,6 +199,7 @@ macro_rules! block_fns {
             let b: [u8; 16] = kani::any();
             let mut blk = Array(b);
             cipher::BlockCipherDecrypt::decrypt_block(&c, &mut blk);
+            replay_all();
             assert!(eq4(&r::words_of(&blk.0), &r::decrypt_words(&c.round_keys, r::words_of(&b))));
         }
         // C01 for every value of the round keys, both orders, by composition of the inverse-pair lemmas
@@ -205,25 +237,27 @@ macro_rules! block_fns {
         }
     };
 }
-// @ob name=c_encrypt_block props=C08,C20 fn=serpent::Serpent::encrypt_block uses=c_apply_s,c_linear_transform timeout=600
-// @ob name=c_decrypt_block props=C08,C20 fn=serpent::Serpent::decrypt_block uses=c_apply_s_inv,c_linear_transform_inv timeout=600
-// @ob name=l_roundtrip props=C01 kind=lemma fn=serpent::Serpent::encrypt_block,serpent::Serpent::decrypt_block uses=l_apply_s_inverse,l_linear_transform_inverse,c_apply_s,c_apply_s_inv timeout=600
-// @ob name=l_roundtrip_mono props=C01 kind=lemma tier=thorough fn=serpent::Serpent::encrypt_block,serpent::Serpent::decrypt_block timeout=3600
-block_fns!(c_encrypt_block, c_decrypt_block, l_roundtrip, l_roundtrip_mono, 34, cfg!(not(serpent_no_unroll)));
+// @ob name=c_encrypt_block_un props=C08,C20 fn=serpent::Serpent::encrypt_block uses=c_apply_s_fwd,c_linear_transform_fwd timeout=600
+// @ob name=c_decrypt_block_un props=C08,C20 fn=serpent::Serpent::decrypt_block uses=c_apply_s_inv,c_linear_transform_inv timeout=600
+// @ob name=l_roundtrip_un props=C01 kind=lemma fn=serpent::Serpent::encrypt_block,serpent::Serpent::decrypt_block uses=l_apply_s_inverse,l_linear_transform_inverse,c_apply_s_fwd,c_apply_s_inv timeout=600
+// @ob name=l_rtmono_un props=C01 kind=lemma tier=thorough fn=serpent::Serpent::encrypt_block,serpent::Serpent::decrypt_block timeout=3600
+block_fns!(c_encrypt_block_un, c_decrypt_block_un, l_roundtrip_un, l_rtmono_un, 34, cfg!(not(serpent_no_unroll)));
 // the same three under --cfg serpent_no_unroll (the looped rounds)
-// @ob name=c_encrypt_block_nu props=C08,C03,C20 cfg=no_unroll fn=serpent::Serpent::encrypt_block uses=c_apply_s,c_linear_transform timeout=600
+// @ob name=c_encrypt_block_nu props=C08,C03,C20 cfg=no_unroll fn=serpent::Serpent::encrypt_block uses=c_apply_s_fwd,c_linear_transform_fwd timeout=600
 // @ob name=c_decrypt_block_nu props=C08,C03,C20 cfg=no_unroll fn=serpent::Serpent::decrypt_block uses=c_apply_s_inv,c_linear_transform_inv timeout=600
-// @ob name=l_roundtrip_nu props=C01,C03 kind=lemma cfg=no_unroll fn=serpent::Serpent::encrypt_block,serpent::Serpent::decrypt_block uses=l_apply_s_inverse,l_linear_transform_inverse,c_apply_s,c_apply_s_inv timeout=600
-// @ob name=l_roundtrip_mono_nu props=C01,C03 kind=lemma tier=thorough cfg=no_unroll fn=serpent::Serpent::encrypt_block,serpent::Serpent::decrypt_block timeout=3600
-block_fns!(c_encrypt_block_nu, c_decrypt_block_nu, l_roundtrip_nu, l_roundtrip_mono_nu, 34, cfg!(serpent_no_unroll));
+// @ob name=l_roundtrip_nu props=C01,C03 kind=lemma cfg=no_unroll fn=serpent::Serpent::encrypt_block,serpent::Serpent::decrypt_block uses=l_apply_s_inverse,l_linear_transform_inverse,c_apply_s_fwd,c_apply_s_inv timeout=600
+// @ob name=l_rtmono_nu props=C01,C03 kind=lemma tier=thorough cfg=no_unroll fn=serpent::Serpent::encrypt_block,serpent::Serpent::decrypt_block timeout=3600
+block_fns!(c_encrypt_block_nu, c_decrypt_block_nu, l_roundtrip_nu, l_rtmono_nu, 34, cfg!(serpent_no_unroll));
 
 // Public API on bytes: new_from_slice + encrypt_block / decrypt_block == Serpent of the submission for every key of
 // SYMBOLIC length 16..=32 bytes and every block.
 macro_rules! api_fns {
     ($enc:ident, $dec:ident, $unwind:expr, $cfgok:expr) => {
         #[kani::proof]
-        #[kani::stub(crate::bitslice::apply_s, spec_apply_s)]
-        #[kani::stub(crate::bitslice::linear_transform, spec_lt)]
+        #[kani::stub(crate::bitslice::apply_s, st_s)]
+        #[kani::stub(bcref::serpent::sbox, st_s)]
+        #[kani::stub(crate::bitslice::linear_transform, st_l)]
+        #[kani::stub(bcref::serpent::lt, st_l)]
         #[kani::unwind($unwind)]
         fn $enc() {
             assert!($cfgok);
@@ -236,12 +270,16 @@ macro_rules! api_fns {
             let c = <Serpent as KeyInit>::new_from_slice(&buf[..n]).unwrap();
             let mut blk = Array(b);
             cipher::BlockCipherEncrypt::encrypt_block(&c, &mut blk);
+            replay_all();
             assert!(blk.0 == r::encrypt(&buf, n, &b));
         }
         #[kani::proof]
-        #[kani::stub(crate::bitslice::apply_s, spec_apply_s)]
-        #[kani::stub(crate::bitslice::apply_s_inv, spec_apply_s_inv)]
-        #[kani::stub(crate::bitslice::linear_transform_inv, spec_lt_inv)]
+        #[kani::stub(crate::bitslice::apply_s, st_s)]
+        #[kani::stub(bcref::serpent::sbox, st_s)]
+        #[kani::stub(crate::bitslice::apply_s_inv, st_si)]
+        #[kani::stub(bcref::serpent::sbox_inv, st_si)]
+        #[kani::stub(crate::bitslice::linear_transform_inv, st_li)]
+        #[kani::stub(bcref::serpent::lt_inv, st_li)]
         #[kani::unwind($unwind)]
         fn $dec() {
             assert!($cfgok);
@@ -254,13 +292,14 @@ macro_rules! api_fns {
             let c = <Serpent as KeyInit>::new_from_slice(&buf[..n]).unwrap();
             let mut blk = Array(b);
             cipher::BlockCipherDecrypt::decrypt_block(&c, &mut blk);
+            replay_all();
             assert!(blk.0 == r::decrypt(&buf, n, &b));
         }
     };
 }
-// @ob name=c_api_enc props=C08,C20 fn=serpent::Serpent::new_from_slice,serpent::Serpent::encrypt_block uses=c_apply_s,c_linear_transform timeout=900
-// @ob name=c_api_dec props=C08,C20 fn=serpent::Serpent::new_from_slice,serpent::Serpent::decrypt_block uses=c_apply_s,c_apply_s_inv,c_linear_transform_inv timeout=900
-api_fns!(c_api_enc, c_api_dec, 141, cfg!(not(serpent_no_unroll)));
-// @ob name=c_api_enc_nu props=C08,C03,C20 cfg=no_unroll fn=serpent::Serpent::new_from_slice,serpent::Serpent::encrypt_block uses=c_apply_s,c_linear_transform timeout=900
-// @ob name=c_api_dec_nu props=C08,C03,C20 cfg=no_unroll fn=serpent::Serpent::new_from_slice,serpent::Serpent::decrypt_block uses=c_apply_s,c_apply_s_inv,c_linear_transform_inv timeout=900
+// @ob name=c_api_enc_un props=C08,C20 fn=serpent::Serpent::new_from_slice,serpent::Serpent::encrypt_block uses=c_apply_s_fwd,c_linear_transform_fwd timeout=900
+// @ob name=c_api_dec_un props=C08,C20 fn=serpent::Serpent::new_from_slice,serpent::Serpent::decrypt_block uses=c_apply_s_fwd,c_apply_s_inv,c_linear_transform_inv timeout=900
+api_fns!(c_api_enc_un, c_api_dec_un, 141, cfg!(not(serpent_no_unroll)));
+// @ob name=c_api_enc_nu props=C08,C03,C20 cfg=no_unroll fn=serpent::Serpent::new_from_slice,serpent::Serpent::encrypt_block uses=c_apply_s_fwd,c_linear_transform_fwd timeout=900
+// @ob name=c_api_dec_nu props=C08,C03,C20 cfg=no_unroll fn=serpent::Serpent::new_from_slice,serpent::Serpent::decrypt_block uses=c_apply_s_fwd,c_apply_s_inv,c_linear_transform_inv timeout=900
 api_fns!(c_api_enc_nu, c_api_dec_nu, 141, cfg!(serpent_no_unroll));
